@@ -19,7 +19,7 @@ def s_case(draw):
     big = draw(st.integers(0, 9)) == 0
     n = draw(st.sampled_from([2048, 4096, 4095, 2047, 8191])) if big else draw(st.one_of(st.sampled_from(LENGTHS), st.integers(1, 300)))
     x = draw(s_signal(n=n, fams=["gauss", "unif", "smallint", "spike", "const", "lead0"]))
-    return {"x": x, "gv": draw(s_gv()), "gv2": draw(s_gv()), "shift": draw(st.booleans()), "dom": draw(st.sampled_from(["w", "f", "t"]))}
+    return {"x": x, "gv": draw(s_gv(noncommensurate=True)), "gv2": draw(s_gv(noncommensurate=True)), "shift": draw(st.booleans()), "dom": draw(st.sampled_from(["w", "f", "t"]))}
 
 
 def tol(ref):
